@@ -87,7 +87,10 @@ REG.klass("OrderContainer", B + "backtesting.helpers.ExchangeObjectContainer", b
 
 # --- core: events / dispatcher (fields used by the backtesting exchange) ---------------------------------------------
 REG.klass("Producer", B + "core.event.Producer")
-REG.klass("EventSource", B + "core.event.EventSource", abstract=True, fields={"producer": "Opt[Producer]"})
+# ghost `pending`: the events the source has produced so far (grows when events are pushed / arrive; never shrinks).
+# pop() only ever returns such an event: "the event existed when the pass began" is stated over this set (C03)
+REG.klass("EventSource", B + "core.event.EventSource", abstract=True, fields={"producer": "Opt[Producer]"},
+          ghost={"pending": "MSet[Event]"})
 REG.klass("FifoQueueEventSource", B + "core.event.FifoQueueEventSource", bases=["EventSource"], fields={"_queue": "List[Event]"})
 REG.klass("LazyProxy", B + "core.helpers.LazyProxy", fields={"_factory": "Fun", "_obj": "Opt[FifoQueueEventSource]"})
 REG.klass("OrderEvent", B + "backtesting.order_mgr.OrderEvent", bases=["Event"], fields={"order": "OrderInfo"})
@@ -156,7 +159,9 @@ REG.klass("OrderMgrCtx", B + "backtesting.order_mgr.ExchangeContext",
                   "config": "Config"})
 REG.klass("OrderManager", B + "backtesting.order_mgr.OrderManager",
           fields={"_ctx": "OrderMgrCtx", "_liquidity_strategies": "Dict[Val:Pair,LiquidityStrategy]",
-                  "_orders": "OrderContainer", "_holds_by_order": "Dict[Id,ValueMap]", "_order_updates": "LazyProxy"})
+                  "_orders": "OrderContainer", "_holds_by_order": "Dict[Id,ValueMap]", "_order_updates": "LazyProxy"},
+          # ghost: the last bar event whose matching pass over the open orders has completed (C03: match, then re-publish)
+          ghost={"last_bar": "Opt[Event]"})
 
 # --- global ghost state (exists only in contracts) --------------------------------------------------------------------
 # ledger[s] = sum over orders of (balance_updates[s] + fees[s])  -  sum over loans of paid_interest[s]
@@ -179,3 +184,11 @@ REG.klass("Exchange", B + "backtesting.exchange.Exchange",
           fields={"_dispatcher": "BacktestingDispatcher", "_balances": "AccountBalances",
                   "_bar_event_source": "Dict[Val:Pair,FifoQueueEventSource]", "_config": "Config", "_prices": "Prices",
                   "_loan_mgr": "LoanManager", "_order_mgr": "OrderManager"})
+
+# --- core: live trades -> bars (C19) ------------------------------------------------------------------------------------
+REG.klass("RealTimeTradesToBar", B + "core.bar.RealTimeTradesToBar", bases=["FifoQueueEventSource", "Producer"],
+          fields={"_pair": "Val:Pair", "_bar_duration": "Int", "_trades": "List[Tuple[DT,Real,Real]]", "_skip_first_bar": "Bool",
+                  "_next_trade_ge": "Opt[DT]", "_flush_delay": "Real"})
+REG.klass("CsvRowParser", B + "core.event_sources.csv.RowParser", abstract=True)
+REG.klass("CommonBarRowParser", B + "external.common.csv.bars.RowParser", bases=["CsvRowParser"],
+          fields={"pair": "Val:Pair", "tzinfo": "Any", "timedelta": "TD"})
